@@ -142,10 +142,14 @@ P_SegParamsOK(sg, p, dec, decok, a, n, params, orc) ==
     [] sg.k = "R" -> \E sp \in orc.splits :
                         /\ sp[1] = sg.t /\ sp[2] = p[a] /\ Len(sp[3]) = Len(sg.binds)
                         /\ \A b \in 1..Len(sg.binds) : HasKey(params, sg.binds[b]) /\ params[sg.binds[b]] = sp[3][b]
+RECURSIVE BindSet(_, _)
+BindSet(segs, i) == IF i > Len(segs) THEN {} ELSE { segs[i].binds[b] : b \in 1..Len(segs[i].binds) } \cup BindSet(segs, i + 1)
 P_ParamsOK(H, w, p, dec, decok, params, orc) ==
   LET sg == FormSegs(H, w) IN
   /\ \A j \in 1..Len(sg) : P_SegParamsOK(sg[j], p, dec, decok, SegStart(w.c, j), w.c[j], params, orc)
   /\ HasKey(params, "route") /\ params["route"] = RouteText(H[w.reg].r)
+  \* nothing but the binds of this route and the reserved "route": in particular nothing another request left behind
+  /\ \A k \in DOMAIN params : k = "route" \/ k \in BindSet(H[w.reg].r.segs, 1)
 
 (* ======================= layer P : URL building ====================== *)
 \* vals: function name -> value. Every bind element is replaced by its value if supplied.
